@@ -94,11 +94,11 @@ Section Sound.
       apply span_wscn_inv in H3 as (w & Hw & S3). apply ret_inv in H as [-> ->].
       apply (separated0_inv _ _ _ _ _ array_value_shrinking (byte_shrinking _)) in H1
         as [(-> & -> & _) | (it & i1 & items & -> & E & R)].
-      + apply ret_inv in H2 as [_ ->]. exists w, [], [], (raw_with_span tr), false, decor_default, None.
+      + apply ret_inv in H2 as [_ ->]. exists w, [], [], (raw_with_span tr), comma, decor_default, None.
         split; [reflexivity|]. split; [exact S3|]. split; [constructor|]. apply (v_array_empty w Hw).
       + apply pmap_inv in H2 as (o & H2 & _).
         assert (Hc : exists c, (c = [] \/ c = [x2c]) /\ splits j1 c j2).
-        { apply opt_inv in H2 as [(x & -> & H2) | [-> ->]].
+        { apply opt_inv in H2 as [(x & -> & H2) | (-> & -> & _)].
           - apply byte_inv in H2 as [_ S]. exists [x2c]. auto.
           - exists []. split; [auto|apply splits_nil]. }
         destruct Hc as (c & Hc & S2).
@@ -173,7 +173,7 @@ Section Sound.
       exists (w3 ++ [x2c] ++ w0' ++ (kt' ++ w1' ++ [x3d] ++ w2' ++ t' ++ u)), ((p', a') :: l), wl,
              (([x2c] ++ w0' ++ (kt' ++ w1' ++ [x3d] ++ w2' ++ t') ++ w3') ++ x').
       split; [exact (splits_trans _ _ _ _ _ S12 Sx)|]. split; [|split; [exact Hwl|split]].
-      + rewrite <- !app_assoc. rewrite <- !app_assoc in Ex. rewrite Ex. reflexivity.
+      + rewrite <- !app_assoc. rewrite Ex. reflexivity.
       + apply ik_more; assumption.
       + rewrite (splits_depth _ _ _ S1) in Hpr. rewrite (splits_depth _ _ _ S12) in HF. constructor; assumption.
   Qed.
@@ -199,7 +199,8 @@ Section Sound.
       + replace ([x7b] ++ (((w0 ++ (kt ++ w1 ++ [x3d] ++ w2 ++ t) ++ w3) ++ x) ++ w) ++ [x7d])
           with ([x7b] ++ w0 ++ (kt ++ w1 ++ [x3d] ++ w2 ++ t ++ u) ++ (wl ++ w) ++ [x7d]).
         * apply v_inline; [exact Hw0|exact Hkv|apply ws_tok_app; assumption].
-        * rewrite <- !app_assoc. do 6 f_equal. rewrite !app_assoc. do 2 f_equal. rewrite <- !app_assoc. symmetry. exact Ex.
+        * assert (E2 : forall z, w3 ++ x ++ z = u ++ wl ++ z) by (intro z; rewrite !app_assoc, Ex; reflexivity).
+          rewrite <- !app_assoc. rewrite E2. reflexivity.
   Qed.
 
   Lemma inline_table_sound i v i' : inline_table vr i = Ok v i' ->
@@ -215,7 +216,7 @@ Section Sound.
     split; [exact (splits_trans _ _ _ _ _ S1 (splits_trans _ _ _ _ _ S2 S3))|]. split; [exact Hv|].
     rewrite (splits_depth _ _ _ S1), Hd in HF.
     destruct (prel_ipairs _ _ _ HF) as (l & -> & Hl).
-    apply (inline_bridge_sound (S d0) l kvs Hl d0 pre v eq_refl Hlim Htm).
+    apply (inline_bridge_sound (S d0) l kvs Hl d0 pre tv eq_refl Hlim Htm).
   Qed.
 
   (* ---- scalars ------------------------------------------------------------------------------------- *)
@@ -229,17 +230,21 @@ Section Sound.
     exists t, a. split; [apply Hv, Ht|]. split; [exact S|]. apply vrel_scalar; auto.
   Qed.
 
+  Ltac fin_scalar :=
+    split; [eexists; split; [reflexivity|eassumption]|]; split; [eassumption|];
+    split; [reflexivity|]; split; [reflexivity|].
+
   Lemma string_arm_sound : vsound_at (pmap (fun s => scalar_value (SString s)) string_).
   Proof.
     apply (scalar_sound string_ SString (fun t a => exists s, a = AStr s /\ string_tok t s)).
-    - intros i x i' H. apply string_sound in H as (t & Ht & S). exists t, (AStr x). repeat split; eauto.
+    - intros i x i' H. apply string_sound in H as (t & Ht & S). exists t, (AStr x). fin_scalar. reflexivity.
     - intros t a (s & -> & H). apply v_string, H.
   Qed.
 
   Lemma integer_arm_sound : vsound_at (pmap (fun z => scalar_value (SInt z)) integer).
   Proof.
     apply (scalar_sound integer SInt (fun t a => exists z, a = AInt z /\ integer_tok t z)).
-    - intros i x i' H. apply integer_sound in H as (t & Ht & S & Hz). exists t, (AInt x). repeat split; eauto.
+    - intros i x i' H. apply integer_sound in H as (t & Ht & S & Hz). exists t, (AInt x). fin_scalar. intro d. exact Hz.
     - intros t a (z & -> & H). apply v_integer, H.
   Qed.
 
@@ -250,29 +255,29 @@ Section Sound.
   Proof.
     apply (scalar_sound float SFloat (fun t a => exists f, a = AFloat f /\ float_tok t f)).
     - intros i x i' H. apply float_sound in H as (t & Ht & Hf & S). exists t, (AFloat x).
-      repeat split; eauto. intro d. apply finite_within, Hf.
+      fin_scalar. intro d. apply finite_within, Hf.
     - intros t a (f & -> & H). apply v_float, H.
   Qed.
 
   Lemma date_time_arm_sound : vsound_at (pmap (fun d => scalar_value (SDatetime d)) date_time).
   Proof.
     apply (scalar_sound date_time SDatetime (fun t a => exists d, a = ADate d /\ date_time_tok t d)).
-    - intros i x i' H. apply date_time_sound in H as (t & Ht & S). exists t, (ADate x). repeat split; eauto.
+    - intros i x i' H. apply date_time_sound in H as (t & Ht & S). exists t, (ADate x). fin_scalar. reflexivity.
     - intros t a (d & -> & H). apply v_date_time, H.
   Qed.
 
   Lemma true_arm_sound : vsound_at (pmap (fun v => scalar_value (SBool v)) true_).
   Proof.
     apply (scalar_sound true_ SBool (fun t a => exists b, a = ABool b /\ boolean_tok t b)).
-    - intros i x i' H. apply true_sound in H as [-> S]. exists t_true, (ABool true). repeat split; eauto.
-      exists true. split; [reflexivity|left; auto].
+    - intros i x i' H. apply true_sound in H as [-> S]. assert (Hb : boolean_tok t_true true) by (left; auto).
+      exists t_true, (ABool true). fin_scalar. reflexivity.
     - intros t a (b & -> & H). apply v_boolean, H.
   Qed.
   Lemma false_arm_sound : vsound_at (pmap (fun v => scalar_value (SBool v)) false_).
   Proof.
     apply (scalar_sound false_ SBool (fun t a => exists b, a = ABool b /\ boolean_tok t b)).
-    - intros i x i' H. apply false_sound in H as [-> S]. exists t_false, (ABool false). repeat split; eauto.
-      exists false. split; [reflexivity|right; auto].
+    - intros i x i' H. apply false_sound in H as [-> S]. assert (Hb : boolean_tok t_false false) by (right; auto).
+      exists t_false, (ABool false). fin_scalar. reflexivity.
     - intros t a (b & -> & H). apply v_boolean, H.
   Qed.
 
@@ -280,16 +285,16 @@ Section Sound.
   Proof.
     apply (scalar_sound inf SFloat (fun t a => exists f, a = AFloat f /\ float_tok t f)).
     - intros i x i' H. unfold inf in H. apply pvalue_inv in H as (-> & y & H). apply lit_inv in H as [_ S].
-      exists t_inf, (AFloat (FInf false)). repeat split; eauto. exists (FInf false). split; [reflexivity|].
-      apply (float_inf [] false). left. auto.
+      assert (Hf : float_tok t_inf (FInf false)) by (apply (float_inf [] false); left; auto).
+      exists t_inf, (AFloat (FInf false)). fin_scalar. reflexivity.
     - intros t a (f & -> & H). apply v_float, H.
   Qed.
   Lemma nan_arm_sound : vsound_at (pmap (fun f => scalar_value (SFloat f)) nan).
   Proof.
     apply (scalar_sound nan SFloat (fun t a => exists f, a = AFloat f /\ float_tok t f)).
     - intros i x i' H. unfold nan in H. apply pvalue_inv in H as (-> & y & H). apply lit_inv in H as [_ S].
-      exists t_nan, (AFloat (FNan false)). repeat split; eauto. exists (FNan false). split; [reflexivity|].
-      apply (float_nan [] false). left. auto.
+      assert (Hf : float_tok t_nan (FNan false)) by (apply (float_nan [] false); left; auto).
+      exists t_nan, (AFloat (FNan false)). fin_scalar. reflexivity.
     - intros t a (f & -> & H). apply v_float, H.
   Qed.
 
